@@ -50,3 +50,9 @@ func c09fileType() *generator.DefaultFileType { return generator.NewGolangFile()
 
 // c13mergedInit: v1's SnippetWriter has no Dup/Merge; never called (c04ver == 1)
 func c13mergedInit(c *generator.Context, w io.Writer, text string) error { return nil }
+
+// c09RunReal: one run of the library's own package type (DefaultPackage) with the given header slice
+// (which may have spare capacity), package documentation and generators
+func c09RunReal(ctx *generator.Context, name, path, base string, header, doc []byte, gens []generator.Generator) error {
+	return ctx.ExecutePackage(base, &generator.DefaultPackage{PackageName: name, PackagePath: path, HeaderText: header, PackageDocumentation: doc, GeneratorList: gens})
+}
